@@ -32,7 +32,7 @@ CHECKS["C15"] = {
          Q: {"timeout": 300}, T: {"timeout": 3000, "shards": 11}},
     ],
     "mandatory_labels": {"all": ["seq-simple/wait-nonempty", "seq-priority/ties", "seq-priority/nextall",
-                                 "conc/schedules", "conc/add-between-unlock-and-select", "conc/with-cancel"]},
+                                 "conc/schedules", "conc/add-between-unlock-and-select", "conc/with-cancel", "prio-conc/add-during-flush", "prio-conc/dfs-schedules"]},
 }
 
 CHECKS["C16"] = {
@@ -96,7 +96,7 @@ CHECKS["C17"] = {
         {"pkg": "pkg/rendezvous", "run": "^TestVerif_C17_", Q: {"timeout": 300}, T: {"timeout": 3000, "shards": 8}},
         {"pkg": ".", "run": "^TestVerif_C17_", Q: {"timeout": 600}, T: {"timeout": 3000, "shards": 8}},
     ],
-    "mandatory_labels": {"all": ["pure/period-boundary", "pure/key-longer-than-block", "hist/observed-across-deadline", "hist/registered-in-earlier-period", "hist/cross-accept",
+    "mandatory_labels": {"all": ["open-group", "pure/period-boundary", "pure/key-longer-than-block", "hist/observed-across-deadline", "hist/registered-in-earlier-period", "hist/cross-accept",
                                  "hist/own-previous-in-grace", "hist/foreign", "static", "marshaler/across-deadline", "marshaler/exchange"]},
 }
 
@@ -178,8 +178,9 @@ CHECKS["C11"] = {
     "assumptions": ["swapped (account<->proof) blobs are two distinct Ed25519 keys and are accepted as another account; the statement lists only already-has-account, non-Ed25519 and equal keys as refusals"],
     "units": [
         {"pkg": _SS, "run": "^TestVerif_C11_", Q: {"timeout": 600}, T: {"timeout": 3400, "shards": 12}},
+        {"pkg": _SS, "run": "^TestVerifCtl_C11_", "inst": ["pkg/secretstore/device_keystore_wrapper.go"], Q: {"timeout": 600}, T: {"timeout": 3400, "shards": 8}},
     ],
-    "mandatory_labels": {"all": ["derive/first-use-before-import", "import/refused", "import/accepted", "import/pre=proof-key", "import/pre=member-device", "import/blob=equal", "import/blob=rsa-account"]},
+    "mandatory_labels": {"all": ["derive/first-use-before-import", "import/refused", "import/accepted", "import/pre=proof-key", "import/pre=member-device", "import/blob=equal", "import/blob=rsa-account", "concurrent/dfs-schedules"]},
 }
 
 CHECKS["C14"] = {
@@ -234,7 +235,7 @@ CHECKS["C04"] = {
         {"pkg": ".", "run": "^TestVerif_C04_", Q: {"timeout": 900}, T: {"timeout": 3400, "shards": 16}},
     ],
     "mandatory_labels": {"all": ["batch>=2", "reopen-at-end", "one-batch-replica", "two-writers", "consecutive-same-subject",
-                                 "multimember-group", "contact-group", "g/several-writers", "g/batch-vs-single", "g/reindex"]},
+                                 "multimember-group", "contact-group", "g/several-writers", "g/batch-vs-single", "g/reindex", "g/created-by-writer-0"]},
 }
 
 CHECKS["C07"] = {
@@ -297,7 +298,7 @@ CHECKS["C12"] = {
     "units": [
         {"pkg": ".", "run": "^TestVerif_C12_", Q: {"timeout": 900}, T: {"timeout": 3400, "shards": 12}},
     ],
-    "mandatory_labels": {"all": ["mutant/rejected-by-signature-or-type-only", "honest-join", "identity", "descriptor/GroupTypeAccount", "descriptor/GroupTypeContact", "descriptor/GroupTypeMultiMember", "descriptor/joined-without-link-key-sig"]},
+    "mandatory_labels": {"all": ["mutant/rejected-by-signature-or-type-only", "honest-join", "identity", "descriptor/GroupTypeAccount", "descriptor/GroupTypeContact", "descriptor/GroupTypeMultiMember", "descriptor/joined-without-link-key-sig", "service-join"]},
 }
 
 CHECKS["C06"] = {
